@@ -1,6 +1,9 @@
 #!/bin/sh
 # usage: seedconfirm.sh <seed-name>...   — confirms each seeded change in a scratch worktree of /repo's HEAD:
 # the patch applies, the tree builds, the unedited test suite passes with it, the demonstration fails with it and passes without it.
+# When seeded/<name>/confirm.sh exists it IS the demonstration (`sh confirm.sh <worktree>`: exit 0 = the property holds on that tree,
+# non-zero = the regression is visible); it is run once with the patch applied and once after `git apply -R`, and the generic
+# demo_test.go / demo.sh handling is skipped.
 export GOFLAGS=-mod=mod GOPROXY=off
 for NAME in "$@"; do
   D=/verif/seeded/$NAME
@@ -12,7 +15,18 @@ for NAME in "$@"; do
     git apply "$D/patch.diff" || { echo "$NAME: PATCH-DOES-NOT-APPLY"; exit 1; }
     go build ./... || { echo "$NAME: BUILD-FAILS"; exit 1; }
     if go test -vet=off -count=1 ./... > /tmp/seedcf/$NAME.suite 2>&1; then S=pass; else S=FAIL; fi
-    DIR=$(python3 -c "import json,os,sys; print(os.path.dirname(json.load(open('$D/meta.json'))['files'][0]))")
+    if [ -f "$D/confirm.sh" ]; then
+      if sh "$D/confirm.sh" "$WT" > /tmp/seedcf/$NAME.cfwith 2>&1; then W3=pass; else W3=FAIL; fi
+      LEFT=$(git status --porcelain | grep -v '^ M ')
+      git apply -R "$D/patch.diff"
+      if sh "$D/confirm.sh" "$WT" > /tmp/seedcf/$NAME.cfwithout 2>&1; then WO3=pass; else WO3=FAIL; fi
+      LEFT=$LEFT$(git status --porcelain)
+      [ -z "$LEFT" ] || echo "$NAME: warning: confirm.sh left the worktree changed: $LEFT" >&2
+      echo "$NAME: suite-with-change=$S confirm.sh(with=$W3 without=$WO3)"
+      echo "suite-with-change=$S confirm.sh(with=$W3 without=$WO3)" > "$D/confirm.txt"
+      exit 0
+    fi
+    DIR=$(python3 -c "import json,os,sys; print(os.path.dirname(json.load(open('$D/meta.json'))['files'][0]))" 2>/dev/null)
     W=none; WO=none
     if [ -f "$D/demo_test.go" ]; then
       PKGDIR=$(grep -o 'internal/[a-z/]*\|cmd/[a-z/]*' "$D/demo_test.go" | grep -v '\.go' | head -1)
